@@ -9,7 +9,8 @@ from datetime import date, datetime, timedelta, timezone
 LEAN = ['ICal.Props.C14']
 # ops body_al_add / body_al_repeat run lean/ICal/Gen/BodiesAlarm.lean (Alarms._add, Alarms._repeat, tools.is_date regenerated
 # by tools/py2lean.py); Props.C14 imports it too (ICal.Lemmas.BodiesAlarm): a translator failure there breaks this tie
-DRIVER_MODULES = ['ICal.Driver.BodiesAlarm', 'ICal.Driver.Alarm']
+# op body_al_times runs the regenerated Alarms.times (with _get_*_alarm_times, _alarm_time) on the pieces of lean/ICal/Model/AlarmPieces.lean
+DRIVER_MODULES = ['ICal.Driver.BodiesAlarm', 'ICal.Driver.BodiesAlarmTimes', 'ICal.Driver.Alarm']
 LEVEL = 'proof'
 FINGERPRINTS = ['alarms.Alarms', 'alarms.AlarmTime', 'cal.Alarm', 'cal.create_utc_property', 'tools.to_datetime',
                 'tools.normalize_pytz', 'tools.is_date', 'cal.Component.is_thunderbird']
@@ -487,6 +488,8 @@ def register_component(ctx, spec, prov, how, ltz=None, ops=('al_times',), nontri
     for op in ops:
         res = impl_times(comp, encs, prep) if op == 'al_times' else impl_active(comp, encs, prep)
         ctx.corr(op, args, res, nontrivial)
+        if op == 'al_times':      # the same case for the regenerated Alarms.times (the translator's own tie)
+            ctx.corr('body_al_times', args, res, nontrivial)
     return comp
 
 
